@@ -1239,6 +1239,16 @@ class Ctx:
             return self.uexp(self._sr(x))
         return math.exp(x)
 
+    def tanh(self, x):
+        if self.mode == "sym":
+            return self.utanh(self._sr(x))
+        return math.tanh(x)
+
+    def sinh(self, x):
+        if self.mode == "sym":
+            return self.usinh(self._sr(x))
+        return math.sinh(x)
+
     def close(self, a, b, rtol=1e-9):
         """|a-b| <= rtol*|b| : for results that involve floating point constants whose last bit depends on how the
         source spells them (8*pi**3, 180/pi ...). The concrete replay uses half the tolerance so that every model that
